@@ -243,3 +243,43 @@ def run(ck):
         ck.ob("C07-R9", "SyncImpl::runOnce/waits-without-limit", bool(infinite), e.loc, ro,
               "poller.poll(events) with the default time-out of -1 ms" if infinite else
               "runOnce polls with `%s`: with a finite (or zero) time-out the loop wakes up although nothing happened" % (tm.get("t") or "")[:60])
+
+    # ---------------- R10: a descriptor is not a set of send flags ----------------
+    ck.rule("C07-R10", "type-level (declared types of arguments vs. parameter roles) over every call site of the transport",
+            "in transport.cc no expression of declared type Fd (a descriptor) is bound to a parameter that carries socket flags (a "
+            "parameter named *flag* of a library constructor / function, or the flags argument of send / sendfile-style libc calls): a "
+            "re-queued or resumed write sent with its descriptor number as flags (MSG_OOB = 1, MSG_DONTROUTE = 4, ...) is mangled by the "
+            "kernel for some descriptor values only", 3)
+    nflag = 0
+    for g in prog.funcs.values():
+        if not (g.file.endswith("/common/transport.cc") or g.file.endswith("/pistache/transport.h")):
+            continue
+        for e in g.events(("call", "construct")):
+            cid = e.get("cid") or ""
+            args = e.get("args") or []
+            pn = None
+            if cid in prog.funcs:
+                pn = [p_.get("name") or "" for p_ in prog.funcs[cid].params]
+            elif (e.get("callee") or "") in ("send", "sendto", "sendmsg", "recv"):
+                pn = ["fd", "buf", "len", "flags"] + ["x"] * 4
+            if not pn:
+                continue
+            for i_, a in enumerate(args):
+                if i_ >= len(pn) or "flag" not in pn[i_].lower() or a.get("dflt"):
+                    continue
+                nflag += 1
+                ty = (a.get("vt") or a.get("ty") or "")
+                isfd = ty.replace("const ", "").strip() in ("Pistache::Fd", "Fd") or (a.get("v") or "") in ("fd", "peerFd", "peer_fd", "sockfd")
+                own = prog.owner(g)
+                ck.ob("C07-R10", "%s: %s(%s)" % (own.base.replace(T, ""), facts.strip_tmpl(e.get("callee") or e.get("cls") or "").rsplit("::", 1)[-1], pn[i_]), not isfd, e.loc, g,
+                      "flags argument `%s` is not a descriptor" % (a.get("t") or "")[:40] if not isfd else
+                      "`%s` (a descriptor, declared %s) is passed as the flags of %s" % ((a.get("t") or "")[:40], ty, (e.get("t") or "")[:70]))
+    ck.require(nflag >= 3, "only %d flag-carrying arguments found in transport.cc" % nflag)
+
+    # ---------------- facts shared with C08 ----------------
+    ck.borrow("C08", ["C08-R1"], "C07-R11",
+              "what is pending for a stalled connection is dropped only when the peer itself is gone or its idle time-out has been answered: "
+              "handlePeerDisconnection (which erases toWrite[fd]) is called only from the read loop and from the continuation of the queued "
+              "408 -- which is sent *behind* the pending data; a direct call from anywhere else releases a connection that is merely "
+              "blocked and nothing pending for it is ever delivered",
+              key_pred=lambda k: "handlePeerDisconnection" in k, min_instances=1)
